@@ -31,9 +31,15 @@ Min(a, b) == IF a <= b THEN a ELSE b
 RcvLimit == 262144          \* 256 kB receive byte account
 Overhead == 28
 
-\* aborting = receive operations aborted (cancel, close, superseded) whose handler has not run yet
+\* aborting = receive operations aborted (cancel, close, superseded) whose handler has not run yet:
+\* Seq of their [style, cap] (the handler may still report the natural result if the operation had
+\* already completed when it was aborted)
 FreshSock == [open |-> TRUE, ep |-> None, inc |-> 0, rcvq |-> <<>>, acct |-> 0, nextSend |-> 0,
-              sndbuf |-> 20000000, df |-> FALSE, op |-> None, aborting |-> 0]
+              sndbuf |-> 20000000, df |-> FALSE, op |-> None, aborting |-> <<>>, grave |-> <<>>,
+              wop |-> FALSE]
+\* wop = a wait-for-writable is outstanding (aborted by cancel, close, or by any send_to)
+\* grave = what the receive queue held when the socket was closed with a receive outstanding: that
+\* receive may already have completed (its handler was posted) and then still reports its datagram
 
 UInit(t) == /\ now = 0 /\ topo = t
             /\ us = [s \in Socks |-> FreshSock]
@@ -59,6 +65,7 @@ SendResults(s, dst, size) ==
 SendTo(s, id, dst, size, ret, ec) ==
     /\ us[s].open /\ us[s].ep # None /\ id \notin DOMAIN dg
     /\ <<ret, ec>> \in SendResults(s, dst, size)
+    /\ ~us[s].wop      \* (a pending writable-wait is first aborted: SupersedeWaitW)
     /\ IF ec # "ok" THEN UNCHANGED <<us, dg, order>>
        ELSE IF us[s].df /\ size > Mtu(us[s].ep[1], dst[1])
        THEN \* silently discarded (dontFragment), reported as sent, no pacing
@@ -105,29 +112,65 @@ TailDrop(id) == /\ id \in DOMAIN dg /\ dg[id].st \in {"flight", "overtaken"}
 StartRecv(s, style, cap) ==
     /\ us[s].open /\ us[s].ep # None
     /\ us' = [us EXCEPT ![s].op = [style |-> style, cap |-> cap],
-                        ![s].aborting = IF us[s].op # None THEN @ + 1 ELSE @]
+                        ![s].aborting = IF us[s].op # None THEN Append(@, us[s].op) ELSE @]
     /\ UNCHANGED <<now, topo, dg, order>>
 
 \* a receive completes: exactly the head datagram, cut to the buffers, whole datagram released
+\* the operation that completes: the outstanding one, or one that was aborted after it had
+\* already completed
+CurOp(s) == IF us[s].op # None THEN us[s].op ELSE Head(us[s].aborting)
+HasOp(s) == us[s].op # None \/ us[s].aborting # <<>>
 Recv(s, id, n, from) ==
-    /\ us[s].open /\ us[s].rcvq # <<>> /\ Head(us[s].rcvq) = id /\ us[s].op # None
-    /\ n = Min(dg[id].size, us[s].op.cap)
+    /\ us[s].open /\ us[s].rcvq # <<>> /\ Head(us[s].rcvq) = id /\ HasOp(s)
+    /\ n = Min(dg[id].size, CurOp(s).cap)
     /\ from = dg[id].from
     /\ dg' = [i \in DOMAIN dg \ {id} |-> dg[i]]
-    /\ us' = [us EXCEPT ![s].rcvq = Tail(@), ![s].acct = @ - dg[id].size, ![s].op = None]
+    /\ us' = [us EXCEPT ![s].rcvq = Tail(@), ![s].acct = @ - dg[id].size,
+                        ![s].op = None,
+                        ![s].aborting = IF us[s].op # None THEN @ ELSE Tail(@)]
     /\ UNCHANGED <<now, topo, order>>
 
+\* a receive that was aborted after it had completed reports the datagram it had taken
+RecvLate(s, id, n, from) ==
+    /\ us[s].aborting # <<>> /\ us[s].op = None /\ us[s].grave # <<>>
+    /\ Head(us[s].grave).id = id /\ n = Min(Head(us[s].grave).size, Head(us[s].aborting).cap)
+    /\ from = Head(us[s].grave).from
+    /\ us' = [us EXCEPT ![s].aborting = Tail(@), ![s].grave = Tail(@)]
+    /\ UNCHANGED <<now, topo, dg, order>>
+ReadyLate(s) == /\ us[s].aborting # <<>> /\ us[s].op = None /\ Head(us[s].aborting).style = "wait"
+                /\ us[s].grave # <<>>
+                /\ us' = [us EXCEPT ![s].aborting = Tail(@)]
+                /\ UNCHANGED <<now, topo, dg, order>>
 \* readiness notification (async_wait(wait_read)): something is queued; nothing is consumed
-Ready(s) == /\ us[s].open /\ us[s].rcvq # <<>> /\ us[s].op # None /\ us[s].op.style = "wait"
-            /\ us' = [us EXCEPT ![s].op = None]
+Ready(s) == /\ us[s].open /\ us[s].rcvq # <<>> /\ HasOp(s) /\ CurOp(s).style = "wait"
+            /\ us' = [us EXCEPT ![s].op = None, ![s].aborting = IF us[s].op # None THEN @ ELSE Tail(@)]
             /\ UNCHANGED <<now, topo, dg, order>>
 
+WaitRec == [style |-> "waitw", cap |-> 0]
+StartWaitW(s) == /\ us[s].open /\ ~us[s].wop
+                 /\ us' = [us EXCEPT ![s].wop = TRUE]
+                 /\ UNCHANGED <<now, topo, dg, order>>
+Writable(s) == /\ us[s].wop /\ us' = [us EXCEPT ![s].wop = FALSE]
+               /\ UNCHANGED <<now, topo, dg, order>>
+\* remove the first element equal to r from a sequence
+RECURSIVE RemoveFirst(_, _)
+RemoveFirst(q, r) == IF q = <<>> THEN <<>> ELSE IF Head(q) = r THEN Tail(q) ELSE <<Head(q)>> \o RemoveFirst(Tail(q), r)
+\* a writable-wait that had completed before it was aborted reports success
+WritableLate(s) == /\ ~us[s].wop /\ \E i \in 1..Len(us[s].aborting) : us[s].aborting[i] = WaitRec
+                   /\ us' = [us EXCEPT ![s].aborting = RemoveFirst(@, WaitRec)]
+                   /\ UNCHANGED <<now, topo, dg, order>>
+\* any send_to first aborts a pending writable-wait
+SupersedeWaitW(s) == /\ us[s].wop
+                     /\ us' = [us EXCEPT ![s].wop = FALSE, ![s].aborting = Append(@, WaitRec)]
+                     /\ UNCHANGED <<now, topo, dg, order>>
 \* cancel(): the pending operation will complete with operation_aborted
-Cancel(s) == /\ us' = [us EXCEPT ![s].op = None, ![s].aborting = IF us[s].op # None THEN @ + 1 ELSE @]
+Cancel(s) == /\ us' = [us EXCEPT ![s].op = None, ![s].wop = FALSE,
+                                   ![s].aborting = (IF us[s].op # None THEN Append(@, us[s].op) ELSE @)
+                                                   \o (IF us[s].wop THEN <<WaitRec>> ELSE <<>>)]
              /\ UNCHANGED <<now, topo, dg, order>>
 \* the handler of an aborted operation runs
-AbortRecv(s) == /\ us[s].aborting > 0
-                /\ us' = [us EXCEPT ![s].aborting = @ - 1]
+AbortRecv(s) == /\ us[s].aborting # <<>>
+                /\ us' = [us EXCEPT ![s].aborting = Tail(@)]
                 /\ UNCHANGED <<now, topo, dg, order>>
 
 Bind(s, ep) == /\ us[s].open /\ us[s].ep = None /\ HolderOf(ep) = {}
@@ -140,8 +183,13 @@ Close(s) == /\ dg' = [i \in {j \in DOMAIN dg : ~(dg[j].st = "queued" /\ dg[j].tg
             /\ us' = [us EXCEPT ![s] = [FreshSock EXCEPT !.open = FALSE, !.inc = us[s].inc + 1,
                                                           !.nextSend = us[s].nextSend,
                                                           !.sndbuf = us[s].sndbuf, !.df = us[s].df,
-                                                          !.aborting = us[s].aborting +
-                                                                       (IF us[s].op # None THEN 1 ELSE 0)]]
+                                                          !.aborting = (IF us[s].op # None
+                                                                        THEN Append(us[s].aborting, us[s].op)
+                                                                        ELSE us[s].aborting)
+                                                                       \o (IF us[s].wop THEN <<WaitRec>> ELSE <<>>),
+                                                          !.grave = IF us[s].op # None
+                                                                    THEN [k \in 1..Len(us[s].rcvq) |-> dg[us[s].rcvq[k]] @@ [id |-> us[s].rcvq[k]]]
+                                                                    ELSE <<>>]]
             /\ UNCHANGED <<now, topo, order>>
 Open(s) == /\ ~us[s].open
            /\ us' = [us EXCEPT ![s].open = TRUE]
@@ -155,7 +203,7 @@ Advance(t) == t > now /\ now' = t /\ UNCHANGED <<topo, us, dg, order>>
 \* run() returned: nothing in flight, and no receive is pending on a socket with a datagram queued
 Quiescent == /\ \A i \in DOMAIN dg : dg[i].st = "queued"
              /\ \A s \in Socks : ~(us[s].op # None /\ us[s].rcvq # <<>>)
-             /\ \A s \in Socks : us[s].aborting = 0
+             /\ \A s \in Socks : us[s].aborting = <<>> /\ ~us[s].wop
 
 -----------------------------------------------------------------------------
 \* Invariants (C08)
